@@ -27,6 +27,8 @@ mod decoder;
 mod handle;
 mod settings;
 mod sound;
+#[cfg(kira_verif)]
+pub mod verif;
 
 pub use data::*;
 pub use decoder::*;
